@@ -48,6 +48,8 @@ pub struct GenCfg {
     pub declare_commodities: bool,
     pub declare_accounts: bool,
     pub use_aliases: bool,
+    /// write declared aliases instead of canonical names now and then
+    pub write_aliases: bool,
     pub comments: bool,
     pub crlf: bool,
     pub wide: bool,
@@ -80,6 +82,7 @@ impl GenCfg {
             declare_commodities: rng.chance(1, 2),
             declare_accounts: rng.chance(1, 3),
             use_aliases: rng.chance(1, 3),
+            write_aliases: true,
             comments: rng.chance(1, 2),
             crlf: rng.chance(1, 5),
             wide: rng.chance(1, 3),
@@ -250,7 +253,7 @@ impl<'a> LedgerGen<'a> {
     }
 
     fn written_account(&mut self, canonical: &str) -> String {
-        if self.cfg.use_aliases && self.rng.chance(1, 2) {
+        if self.cfg.use_aliases && self.cfg.write_aliases && self.rng.chance(1, 2) {
             let opts: Vec<String> = self
                 .aliases
                 .iter()
@@ -265,7 +268,7 @@ impl<'a> LedgerGen<'a> {
     }
 
     fn written_commodity(&mut self, canonical: &str) -> String {
-        if self.cfg.use_aliases && self.rng.chance(1, 3) {
+        if self.cfg.use_aliases && self.cfg.write_aliases && self.rng.chance(1, 3) {
             let opts: Vec<String> = self
                 .aliases
                 .iter()
